@@ -6,6 +6,8 @@ package chainkit
 import (
 	"encoding/hex"
 	"fmt"
+	"os"
+	"path/filepath"
 
 	"github.com/33cn/chain33/common/address"
 	"github.com/33cn/chain33/common/crypto"
@@ -34,6 +36,64 @@ func NewNodeCfg(o NodeCfg) *Node {
 			m.BlockChain.LowAllowPackHeight = o.LowAllow
 		}
 	})
+}
+
+// NewNodeCfgAt is NewNodeCfg with the blockchain database and the state store kept in dir
+// (goleveldb), so that closing the node and calling NewNodeCfgAt on the same dir again is a RESTART
+// (NewBlockStore / InitBlockChain / InitCache / InitIndexAndBestView recover from the database).
+func NewNodeCfgAt(dir string, o NodeCfg) *Node {
+	abs, err := filepath.Abs(dir)
+	if err != nil {
+		panic(err)
+	}
+	tmp, err := filepath.Abs(os.TempDir())
+	if err != nil {
+		panic(err)
+	}
+	rel, err := filepath.Rel(tmp, abs)
+	if err != nil {
+		panic(err)
+	}
+	return newNodeWith(func(m *types.Config) {
+		m.BlockChain.IsRecordBlockSequence = o.RecordSequence
+		m.BlockChain.EnablePushSubscribe = false
+		if o.HighAllow > 0 && o.LowAllow > 0 {
+			m.BlockChain.HighAllowPackHeight = o.HighAllow
+			m.BlockChain.LowAllowPackHeight = o.LowAllow
+		}
+		// util.ResetDatadir joins the configured path to a fresh directory under os.TempDir()
+		m.BlockChain.DbPath = filepath.Join("..", rel, "chain")
+		m.Store.DbPath = filepath.Join("..", rel, "store")
+	})
+}
+
+// ExecKeepAll executes EVERY transaction of b on the producer's executor/store exactly as listed
+// (no duplicate removal, nothing dropped — what a peer that wants the body accepted would compute)
+// and commits the resulting state; answers the state root and whether any receipt was ExecErr.
+func ExecKeepAll(p *Node, parentState []byte, b *types.Block) (state []byte, execErr bool, err error) {
+	cp := types.Clone(b).(*types.Block)
+	client := p.Mock.GetClient()
+	receipts, err := util.ExecTx(client, parentState, cp)
+	if err != nil {
+		return nil, false, err
+	}
+	var kvset []*types.KeyValue
+	for _, r := range receipts.GetReceipts() {
+		if r.Ty == types.ExecErr {
+			execErr = true
+			continue
+		}
+		kvset = append(kvset, r.KV...)
+	}
+	kvset = util.DelDupKey(kvset)
+	state, err = util.ExecKVMemSet(client, parentState, cp.Height, kvset, true, false)
+	if err != nil {
+		return nil, execErr, err
+	}
+	if err = util.ExecKVSetCommit(client, state, false); err != nil {
+		return nil, execErr, err
+	}
+	return state, execErr, nil
 }
 
 func newNodeWith(f func(m *types.Config)) *Node {
